@@ -136,6 +136,12 @@ SYS_QUICK += [
     dict(name='limit-release', concrete_tank=True, init=11.5, second_link='first', p3_closed=True, H=1800, dur=3600, qset=[0.06], oset=[0.03],
          tank_link='pipe_in', no_over=True, controls=[dict(rel='lt', value=1, attr='level', target='P2')]),
 ]
+SYS_QUICK += [
+    # the mirror image at the minimum level: the tank's outlet P2 is shut when the tank runs empty, a CV pipe into the tank (listed before P2)
+    # refills it, and "P2 OPEN IF level ABOVE thr" then holds away from the limit
+    dict(name='limit-release-min', concrete_tank=True, init=1.5, second_link='first_in', p3_closed=True, H=1800, dur=3600, qset=[-0.06], oset=[0.03],
+         tank_link='pipe_out', no_over=True, controls=[dict(rel='gt', value=1, attr='level', target='P2')]),
+]
 SYS_THOROUGH = SYS_QUICK + [
     dict(name='hysteresis-1step', concrete_tank=True, H=3600, dur=3600, qset=[0.03], tank_link='pipe_in',
          controls=[dict(rel='lt', value=1, attr='level'), dict(rel='gt', value=0, attr='level')], p3_closed=True),
@@ -330,7 +336,7 @@ def _realise_keep_p3(wn, cfg, qs):
     if cfg.get('oset'):
         # the tank drains through P4 into J2's demand all the time (P3 is shut: J1's injection q has to go into the tank)
         o = max(cfg['oset'])
-        wn.get_node('J2').add_demand(o, None)
+        wn.get_node('J2').add_demand(-o if cfg.get('second_link') == 'first_in' else o, None)
     else:
         wn.get_node('J2').add_demand(0.0, None)
     try:
